@@ -215,6 +215,9 @@
                                         (=> (not (deep_marked v)) (= (deep_unmark v) v)))
                                    :pattern ((deep_unmark v)))))
 (assert (forall ((v cty.Value)) (! (= (deep_marked v) (not (= (deep_marks v) empty<Any>))) :pattern ((deep_marks v)))))
+; deep unmarking keeps deep well-formedness (wf_deep is declared further down: the axiom is stated there)
+; the marks of the value itself are among its deep marks
+(assert (forall ((v cty.Value) (k Any)) (! (=> (select (marks_of v) k) (select (deep_marks v) k)) :pattern ((select (marks_of v) k) (deep_marks v)))))
 
 ; ---- function specifications (package function) ---------------------------------------------------
 (define-fun spec_of ((f function.Function)) function.Spec (select F.function.Spec (function.Function.spec f)))
@@ -599,6 +602,7 @@
 (define-fun rng_ok ((t cty.Type) (w Any)) Bool
   (or (rfn_ok t w) (and (is_dyn_ty t) ((_ is box<*cty.refinementNullable>) w) (not (= (unbox<*cty.refinementNullable> w) 0)))))
 ; num_admits as a declared function (with its definition as an axiom) so that it can trigger the
+(assert (forall ((v cty.Value)) (! (=> (wf_deep v) (wf_deep (deep_unmark v))) :pattern ((wf_deep (deep_unmark v))))))
 ; instantiation of relational clauses at call sites
 (declare-fun adm (cty.Value Int Real) Bool)
 (assert (forall ((v cty.Value) (ci Int) (cr Real)) (! (= (adm v ci cr) (num_admits v ci cr)) :pattern ((adm v ci cr)))))
